@@ -53,6 +53,46 @@ pub fn run(ctx: &mut Ctx) {
     let n = if ctx.thorough { 6000 } else { 150 };
     let sk = SigningKey::random(&mut rng); let vk = VerifyingKey::from(&sk);
     let other = SigningKey::random(&mut rng);
+    // ---------- protected headers as ANOTHER implementation encodes them: the structure to be signed / MACed is built
+    // over the protected bytes AS RECEIVED, so a genuine signature over them verifies, and swapping them for another
+    // encoding of the same header map after signing does not
+    {
+        let foreign: Vec<(&str, Vec<u8>, Vec<u8>)> = vec![   // (what, foreign protected bytes, another encoding of the same map)
+            ("alg-nonpreferred-int", vec![0xa1, 0x01, 0x38, 0x06], vec![0xa1, 0x01, 0x26]),
+            ("alg-key-wide", vec![0xa1, 0x18, 0x01, 0x26], vec![0xa1, 0x01, 0x26]),
+            ("kid-before-alg", vec![0xa2, 0x04, 0x42, 0x31, 0x31, 0x01, 0x26], vec![0xa2, 0x01, 0x26, 0x04, 0x42, 0x31, 0x31]),
+            ("indefinite-map", vec![0xbf, 0x01, 0x26, 0xff], vec![0xa1, 0x01, 0x26]),
+            ("library-encoding", vec![0xa1, 0x01, 0x26], vec![0xa1, 0x01, 0x38, 0x06]),
+        ];
+        for (i, (what, fprot, other_enc)) in foreign.iter().enumerate() { for attached in [true, false] { for rep in 0..(if ctx.thorough { 8 } else { 2 }) {
+            let payload: Vec<u8> = (0..rng.gen_range(0..80)).map(|_| rng.gen()).collect();
+            let aad: Vec<u8> = if rep % 2 == 0 { vec![] } else { vec![9, 9] };
+            let tbs = to_bytes(&Value::Array(vec![Value::Text("Signature1".into()), Value::Bytes(fprot.clone()), Value::Bytes(aad.clone()), Value::Bytes(payload.clone())]));
+            let sig: Signature = sk.sign(&tbs);
+            let mk = |prot: &Vec<u8>| to_bytes(&Value::Array(vec![Value::Bytes(prot.clone()), Value::Map(vec![]), if attached { Value::Bytes(payload.clone()) } else { Value::Null }, Value::Bytes(sig.to_vec())]));
+            for (variant, prot, expect) in [("as-signed", fprot, "success"), ("swapped-encoding", other_enc, "failure-sig")] {
+                let bytes = mk(prot);
+                let real = match cbor::from_slice::<MaybeTagged<coset::CoseSign1>>(&bytes) { Err(_) => "undecodable".to_string(),
+                    Ok(c) => verdict_sign1(c.verify::<VerifyingKey, Signature>(&vk, if attached { None } else { Some(&payload) }, Some(&aad))) };
+                ctx.emit.line("spec", &format!("spec:sign1:foreign-protected:{variant}"), format!("spec.eq {real} {expect}"), "true".into(),
+                    serde_json::json!({"protected": what, "variant": variant, "attached": attached, "msg_hex": format!("fp{i}-{attached}-{rep}-{variant}-{}", hex::encode(&bytes))}));
+            }
+            // the same for COSE_Mac0 with HMAC 256/256 (alg 5)
+            let (mprot, mother): (Vec<u8>, Vec<u8>) = (fprot.iter().map(|b| if *b == 0x26 { 0x05 } else { *b }).collect::<Vec<u8>>().iter().enumerate().map(|(j, b)| if fprot[j] == 0x06 && j > 0 && fprot[j - 1] == 0x38 { 0x06 } else { *b }).collect(),
+                other_enc.iter().map(|b| if *b == 0x26 { 0x05 } else { *b }).collect());
+            if what.contains("nonpreferred") || what.contains("library-encoding") { continue; }   // alg 5 has no one-byte negative form
+            let mkey: Vec<u8> = (0..32).map(|_| rng.gen()).collect();
+            let mtbs = to_bytes(&Value::Array(vec![Value::Text("MAC0".into()), Value::Bytes(mprot.clone()), Value::Bytes(aad.clone()), Value::Bytes(payload.clone())]));
+            let mut mac = Hmac::<Sha256>::new_from_slice(&mkey).unwrap(); mac.update(&mtbs); let tag = mac.finalize().into_bytes().to_vec();
+            for (variant, prot, expect) in [("as-signed", &mprot, "success"), ("swapped-encoding", &mother, "failure-sig")] {
+                let bytes = to_bytes(&Value::Array(vec![Value::Bytes(prot.clone()), Value::Map(vec![]), if attached { Value::Bytes(payload.clone()) } else { Value::Null }, Value::Bytes(tag.clone())]));
+                let v = Hmac::<Sha256>::new_from_slice(&mkey).unwrap();
+                let real = match cbor::from_slice::<MaybeTagged<coset::CoseMac0>>(&bytes) { Err(_) => "undecodable".to_string(), Ok(c) => verdict_mac0(c.verify(&v, if attached { None } else { Some(&payload) }, Some(&aad))) };
+                ctx.emit.line("spec", &format!("spec:mac0:foreign-protected:{variant}"), format!("spec.eq {real} {expect}"), "true".into(),
+                    serde_json::json!({"protected": what, "variant": variant, "attached": attached, "msg_hex": format!("fm{i}-{attached}-{rep}-{variant}-{}", hex::encode(&bytes))}));
+            }
+        } } }
+    }
     for k in 0..n {
         let payload: Vec<u8> = { let len = match k % 7 { 0 => 0, 1 => 1, 2 => 23, 3 => 24, 4 => 255, 5 => 256, _ => rng.gen_range(0..if k % 50 == 6 { 66000 } else { 600 }) }; (0..len).map(|_| rng.gen()).collect() };
         let aad: Option<Vec<u8>> = match k % 3 { 0 => None, 1 => Some(vec![]), _ => Some((0..rng.gen_range(1..40)).map(|_| rng.gen()).collect()) };
